@@ -377,6 +377,7 @@ def _analyse(name, fmt, model, mk, user, tier, res):
             if len(res["samples"]) < 2:
                 res["samples"].append({"obligation": nm, "emitted": str(z3.simplify(kk))[:200], "verdict": "unsat"})
         elif rr == "sat":
+            mdl = s.model()  # (before the next check: an `unknown` there would leave no model)
             # the generator prints quotients such as E_b/A as one double literal: identify rational constants
             # *inside libm calls* with their nearest double on both sides and ask again (IEEE rounding of
             # literals is outside the claim); only a `sat` that survives this is replayed
@@ -386,7 +387,7 @@ def _analyse(name, fmt, model, mk, user, tier, res):
                 res["ok"].append(nm)
                 res["notes"].append(f"{nm}: equal after rounding constant arguments of libm calls to double")
             else:
-                _replay(p, tdir, res, s.model(), i, ref, key, nm, r, NEQ, y, eb)
+                _replay(p, tdir, res, mdl, i, ref, key, nm, r, NEQ, y, eb)
         else:
             res["unknown"].append((nm, "solver " + rr))
     res["solver_s"] += time.time() - t0
@@ -440,6 +441,11 @@ def _replay(p, tdir, res, model, i, ref, key, nm, r, NEQ, ysyms, eb=None):
                     else:
                         env[lim] = rnd.choice([0.5 * ebf, ebf, 2.0 * ebf]) if ebf > 0 else 1e4
             yv = [rnd.uniform(1e-3, 1.0) for _ in range(NEQ)]
+            # thin and thick mantles: the ice abundances (their sum is the mantle density) over 21 decades
+            ice_ = [p.macros(tdir)["IDX_" + s_["alias"]] for s_ in p.meta["species"] if s_["is_surface"]]
+            scale = [1.0, 1e-12, 1e6, 1e-6, 1e3, 1e-9, 1e9, 1e-3][attempt]
+            for j in ice_:
+                yv[j] *= scale
             out = nat.eval(yv, data=env)
             res["replays"] += 1
             got = out["k"].get(i)
@@ -457,7 +463,7 @@ def _replay(p, tdir, res, model, i, ref, key, nm, r, NEQ, ysyms, eb=None):
             if got is None or not native.close(got, exp, 1e-8, 1e-300):
                 res["viol"].append({"key": key, "what": f"generated grain rate differs from the dust-model law ({key}): emitted {got!r}, law {exp!r}", "replay": {"case": res["case"], "reaction": r, "point": {k_: v_ for k_, v_ in full.items() if not k_.startswith("y")}, "y": yv, "native": got, "law": exp}})
                 return
-        res["unknown"].append((nm, "sat with uninterpreted libm but the native build agrees with the law at 8 physically scaled points (incomplete congruence reasoning)"))
+        res["unknown"].append((nm, "sat with uninterpreted libm but the native build agrees with the law at 8 physically scaled points, thin and thick mantles (incomplete congruence reasoning)"))
     except native.NativeError as e:
         res["unknown"].append((nm, f"sat; native replay unavailable: {str(e)[:200]}"))
 
